@@ -207,7 +207,7 @@ func c17Selection(e *Env) {
 		var stores []ssa.Instruction
 		seenLeaf := map[ssa.Value]bool{}
 		for _, ret := range core.ReturnsOf(f) {
-			for _, leaf := range phiLeaves(core.RetVal(ret, 0)) {
+			for _, leaf := range phiLeavesCells(core.RetVal(ret, 0)) {
 				if core.IsNilConst(leaf) || seenLeaf[leaf] {
 					continue
 				}
